@@ -452,6 +452,17 @@ def _enum_populated(tier):
             yield {'spec': None, 'ops': PREFIX + [ALPHABET[i] for i in seq]}
 
 
+PREFIX_SELF = [['add_asset', 0, -1, 0, True], ['add_asset', 0, 0, 0, True],
+               ['add_assoc_reflexive', 0, [0], [0]], ['add_assoc_reflexive', 0, [1], [0]]]
+
+
+def _enum_self_linked(tier):
+    """the same alphabet, starting from two hosts (one of them unnamed) that are each linked to themselves"""
+    for ln in range(1, 3 if tier == 'quick' else 4):
+        for seq in itertools.product(range(len(ALPHABET)), repeat=ln):
+            yield {'spec': None, 'ops': PREFIX_SELF + [ALPHABET[i] for i in seq]}
+
+
 def _op_strategy():
     i = st.integers
     small = st.integers(0, 5)
@@ -500,6 +511,8 @@ CLAUSES = [
            space='all operation sequences of length <=3 (quick) / <=4 (thorough) over a 21-operation alphabet on the tiny language'),
     Clause('short-histories-from-populated-model', check_case, kind='exhaustive', enumerate=_enum_populated,
            space='all operation sequences of length <=2 (quick) / <=3 (thorough) over the same alphabet, applied to a model that already holds two hosts and a data asset'),
+    Clause('short-histories-from-self-linked-model', check_case, kind='exhaustive', enumerate=_enum_self_linked,
+           space='all operation sequences of length <=2 (quick) / <=3 (thorough) over the same alphabet, applied to two hosts that are each linked to themselves'),
     Clause('tiny-language-histories', check_case, kind='random', strategy=lambda: tiny_histories(25),
            budget={'quick': 3000, 'thorough': 90000}),
     Clause('generated-language-histories', check_case, kind='random', strategy=lambda: lang_histories(25),
